@@ -401,6 +401,10 @@ func checkC02(r *core.Run) {
 	ruleL1(r)
 	ruleL2(r)
 	ruleL2Couple(r)
+	// the subtrahend of the end-block subtraction TotalShardPledged.Sub(shard.Pledge) (ShardRelease, reached from
+	// HandleExpiredShard) is kept within the minuend only if every persisted Shard.Pledge := v adds v to it
+	r.Rule("T-couple(Shard.Pledge): every persisted Shard.Pledge := v moves Pledge.TotalShardPledged by v; otherwise releasing the shard in the end-blocker subtracts more than was added (negative coin panic outside recovery)")
+	ruleShardPledgeBooked(r)
 }
 
 func fieldNameT(T types.Type, i int) string {
